@@ -168,7 +168,7 @@ class FlowJax(Flow):
         if key_data is not None:
             config["key"] = jax.random.wrap_key_data(key_data)
 
-        kwargs = config.pop("kwargs", {})
+        kwargs = config.pop("kwargs", None) or {}
         config.update(kwargs)
 
         # build object (will replace its _flow)
@@ -181,7 +181,7 @@ class FlowJax(Flow):
         ]
 
         # rebuild template flow
-        kwargs.pop("device")
+        kwargs.pop("device", None)
         flow_template = get_flow(key=jrandom.key(0), dims=obj.dims, **kwargs)
         arrays_template, static = eqx.partition(flow_template, eqx.is_array)
 
